@@ -181,6 +181,13 @@ def _run_chunk(chunk):
                 done.add(f.clause)
                 for w in minimise(prop, case, f.clause, memo):
                     wf = [x for x in safe_check(prop, w) if x.clause == f.clause]
+                    norm = getattr(prop, 'normalize', None)
+                    if norm is not None:
+                        w2 = norm(w)
+                        if w2 != w:
+                            wf2 = [x for x in safe_check(prop, w2) if x.clause == f.clause]
+                            if wf2:
+                                w, wf = w2, wf2
                     detail = wf[0].detail if wf else f.detail
                     res['fails'].append((f.clause, w, prop.describe(w), detail, prop.describe(case)))
     except Exception:  # noqa: BLE001
